@@ -620,6 +620,17 @@ def run_property(prop, tier, seed, only=None):
     with open(tmp, "w") as f:
         json.dump(evidence, f, indent=1, sort_keys=True)
     os.replace(tmp, os.path.join(EVIDENCE, "%s.json" % prop))
+    # scratch outputs of the shards: keep them only when there is something to look at
+    try:
+        if exit_code == 0:
+            shutil.rmtree(run_root, ignore_errors=True)
+        else:
+            for dp, _dn, fns in os.walk(run_root):
+                for fn in fns:
+                    if fn.endswith(".fp"):
+                        os.remove(os.path.join(dp, fn))
+    except Exception:
+        pass
     for ln in lines:
         print(ln)
     print("%s %s tier=%s seed=%s evaluations=%d distinct_nontrivial=%d violations=%d inconclusive=%d wall=%.1fs" % (
